@@ -457,7 +457,7 @@ def execute(case: dict) -> dict:
                 viol.append(("not-back-to-initial", {"borrowed": res.borrowed_tokens,
                                                      "waiting": nwaiting()}))  # fmt: skip
 
-    info: dict = {}
+    info: dict = {"stuck_ticks": 600}
     try:
         run(main, config=case["cfg"], info=info)
     except Deadlock:
@@ -491,10 +491,11 @@ def execute(case: dict) -> dict:
 
 def all_cases(tier: str, seed: int):  # noqa: ANN201
     cfgs = ["stock", "eager"]
+    rcfgs = ["stock", "eager"] * 3 + ["uvloop"]  # a share of the random cases on uvloop
     yield from sweep_cases(cfgs)
     rng = random.Random(seed * 7717 + 10)
     for _ in range(80000 if tier == "thorough" else 8000):
-        yield gen_random(rng, cfgs)
+        yield gen_random(rng, rcfgs)
 
 
 def judge(case: dict, col) -> None:  # noqa: ANN001
